@@ -164,6 +164,40 @@ Theorem T06d_legacy_syntax_cnl : forall util av l,
 Proof. exact legacy_syntax_cnl. Qed.
 Print Assumptions T06d_legacy_syntax_cnl.
 
+(* ... whatever names the nest objects carry -- including equal names, which arise without the
+   user naming anything: an unnamed object that was second in an earlier specification keeps
+   nest_2 and meets the nest_2 generated for a new unnamed nest (T06d_names_example) *)
+Theorem T06d_legacy_syntax_named_nested : forall util av l (names : list (option string)),
+  List.length names = List.length l ->
+  let objs := NNObjNamed (keys util) (combine names (map nn_from_tuple l)) in
+  (forall ch, lognested util av (NNLegacy l) ch = lognested util av objs ch) /\
+  (forall ch, nested util av (NNLegacy l) ch = nested util av objs ch) /\
+  (forall ch mu, lognested_mev_mu util av (NNLegacy l) ch mu = lognested_mev_mu util av objs ch mu) /\
+  (forall ch mu, nested_mev_mu util av (NNLegacy l) ch mu = nested_mev_mu util av objs ch mu) /\
+  get_mev_for_nested util av (NNLegacy l) = get_mev_for_nested util av objs /\
+  (forall mu, get_mev_for_nested_mu util av (NNLegacy l) mu = get_mev_for_nested_mu util av objs mu) /\
+  (forall o, get_mev_generating_for_nested util av (NNLegacy l) o = get_mev_generating_for_nested util av objs o).
+Proof. exact legacy_syntax_named_nested. Qed.
+Print Assumptions T06d_legacy_syntax_named_nested.
+
+Theorem T06d_legacy_syntax_named_cnl : forall util av l (names : list (option string)),
+  List.length names = List.length l ->
+  let objs := CNObjNamed (keys util) (combine names (map cn_from_tuple l)) in
+  (forall ch, logcnl util av (CNLegacy l) ch = logcnl util av objs ch) /\
+  (forall ch, cnl util av (CNLegacy l) ch = cnl util av objs ch) /\
+  (forall ch mu, logcnlmu util av (CNLegacy l) ch mu = logcnlmu util av objs ch mu) /\
+  (forall ch mu, cnlmu util av (CNLegacy l) ch mu = cnlmu util av objs ch mu) /\
+  get_mev_for_cross_nested util av (CNLegacy l) = get_mev_for_cross_nested util av objs /\
+  (forall mu, get_mev_for_cross_nested_mu util av (CNLegacy l) mu = get_mev_for_cross_nested_mu util av objs mu).
+Proof. exact legacy_syntax_named_cnl. Qed.
+Print Assumptions T06d_legacy_syntax_named_cnl.
+
+Example T06d_names_example :
+  assign_names [carried_name None (Some 2%Z); None] = ["nest_2"; "nest_2"]%string /\
+  assign_names [None; Some "B"; None]%string = ["nest_1"; "B"; "nest_3"]%string /\
+  List.length [carried_name None (Some 2%Z); None] = List.length [(PN d_one, [1; 2]%Z); (PN d_one, [3]%Z)].
+Proof. repeat split; vm_compute; reflexivity. Qed.
+
 (* ------------------------------------------------------------------ T06e *)
 (* [enf t] is a family of environments in which V_i has the value t and nothing else moves
    ([uvt uval i t] = uval with the value t at i); G is the tree of the generating function,
